@@ -25,9 +25,31 @@ pub enum Consumer {
     TryRfold2ThenRevCollect,
     MaxByKey,
     FindThenLen,
+    // second group (every remaining stable provided method a generated iterator could override); the reference
+    // for these is the same consumer run on `Vec`'s own iterator over the expected list
+    Reduce,
+    AllThenRest,
+    AnyThenRest,
+    FindMapThenRest,
+    RfindThenRest,
+    MaxBy,
+    MinBy,
+    MinByKey,
+    Partition,
+    IsSortedByKey,
+    ByRefTake1ThenLast,
+    ChainOnceNthBack,
+    FuseDrainThenPoll,
+    PeekableCollect,
+    SkipWhileCollect,
+    CountAfterNextBack,
+    LastAfterNthBack,
+    RevFoldAfterNext,
+    TryForEachThenLen,
+    RevRfind,
 }
 
-pub const CONSUMERS: [Consumer; 19] = [
+pub const CONSUMERS: [Consumer; 39] = [
     Consumer::Fold,
     Consumer::Rfold,
     Consumer::Last,
@@ -47,7 +69,78 @@ pub const CONSUMERS: [Consumer; 19] = [
     Consumer::TryRfold2ThenRevCollect,
     Consumer::MaxByKey,
     Consumer::FindThenLen,
+    Consumer::Reduce,
+    Consumer::AllThenRest,
+    Consumer::AnyThenRest,
+    Consumer::FindMapThenRest,
+    Consumer::RfindThenRest,
+    Consumer::MaxBy,
+    Consumer::MinBy,
+    Consumer::MinByKey,
+    Consumer::Partition,
+    Consumer::IsSortedByKey,
+    Consumer::ByRefTake1ThenLast,
+    Consumer::ChainOnceNthBack,
+    Consumer::FuseDrainThenPoll,
+    Consumer::PeekableCollect,
+    Consumer::SkipWhileCollect,
+    Consumer::CountAfterNextBack,
+    Consumer::LastAfterNthBack,
+    Consumer::RevFoldAfterNext,
+    Consumer::TryForEachThenLen,
+    Consumer::RevRfind,
 ];
+
+/// Consumers that need `Item: Ord` (only `names()` yields such items: the subjects derive nothing but Clone, Copy).
+#[derive(Clone, Copy, Debug, PartialEq, Eq, Hash)]
+pub enum OrdConsumer {
+    Max,
+    Min,
+    IsSorted,
+    CmpFixed,
+    EqFixed,
+    LeFixed,
+    RevMax,
+    MaxAfterNext,
+}
+
+pub const ORD_CONSUMERS: [OrdConsumer; 8] = [
+    OrdConsumer::Max,
+    OrdConsumer::Min,
+    OrdConsumer::IsSorted,
+    OrdConsumer::CmpFixed,
+    OrdConsumer::EqFixed,
+    OrdConsumer::LeFixed,
+    OrdConsumer::RevMax,
+    OrdConsumer::MaxAfterNext,
+];
+
+const FIXED: [&str; 2] = ["N0", "V1"];
+
+pub fn consume_ord<I>(it: I, c: OrdConsumer) -> Vec<Obs>
+where
+    I: Iterator<Item = &'static str> + DoubleEndedIterator + ExactSizeIterator + FusedIterator,
+{
+    let o = |x: Option<&'static str>| x.map(Obs::S).into_iter().collect::<Vec<Obs>>();
+    match c {
+        OrdConsumer::Max => o(it.max()),
+        OrdConsumer::Min => o(it.min()),
+        OrdConsumer::IsSorted => vec![Obs::D(it.is_sorted() as i128)],
+        OrdConsumer::CmpFixed => vec![Obs::D(it.cmp(FIXED.iter().copied()) as i128)],
+        OrdConsumer::EqFixed => vec![Obs::D(it.eq(FIXED.iter().copied()) as i128)],
+        OrdConsumer::LeFixed => vec![Obs::D(it.le(FIXED.iter().copied()) as i128)],
+        OrdConsumer::RevMax => o(it.rev().max()),
+        OrdConsumer::MaxAfterNext => {
+            let mut it = it;
+            let a = it.next();
+            let mut v = o(a);
+            v.push(Obs::D(-7));
+            v.extend(o(it.max()));
+            v
+        }
+    }
+}
+
 
 pub trait DynIter {
     fn next(&mut self) -> Option<Obs>;
@@ -57,6 +150,14 @@ pub trait DynIter {
     fn len(&self) -> usize;
     fn size_hint(&self) -> (usize, Option<usize>);
     fn consume(self: Box<Self>, c: Consumer) -> Vec<Obs>;
+    /// false: a light wrapper (only LIGHT_CONSUMERS are compiled in)
+    fn full(&self) -> bool {
+        true
+    }
+    /// `None`: the item type is not `Ord` (nothing to observe)
+    fn consume_ord(self: Box<Self>, _c: OrdConsumer) -> Option<Vec<Obs>> {
+        None
+    }
 }
 
 /// The only generic (per-subject monomorphised) piece. The bounds are those the documentation
@@ -88,7 +189,103 @@ where
     }
     fn consume(self: Box<Self>, c: Consumer) -> Vec<Obs> {
         let W(it, f) = *self;
+        consume_generic(it, f, c)
+    }
+}
+
+/// Light wrapper for subjects whose bounds switch the consumers off: nothing of `consume_generic` is monomorphised for them
+/// (half of a subject's compile time otherwise).
+pub struct WL<I, F>(pub I, pub F);
+
+impl<T, I, F> DynIter for WL<I, F>
+where
+    I: Iterator<Item = T> + DoubleEndedIterator + ExactSizeIterator + FusedIterator,
+    F: Fn(T) -> Obs + Copy,
+{
+    fn next(&mut self) -> Option<Obs> {
+        self.0.next().map(self.1)
+    }
+    fn next_back(&mut self) -> Option<Obs> {
+        self.0.next_back().map(self.1)
+    }
+    fn nth(&mut self, n: usize) -> Option<Obs> {
+        self.0.nth(n).map(self.1)
+    }
+    fn nth_back(&mut self, n: usize) -> Option<Obs> {
+        self.0.nth_back(n).map(self.1)
+    }
+    fn len(&self) -> usize {
+        ExactSizeIterator::len(&self.0)
+    }
+    fn size_hint(&self) -> (usize, Option<usize>) {
+        self.0.size_hint()
+    }
+    fn full(&self) -> bool {
+        false
+    }
+    fn consume(self: Box<Self>, c: Consumer) -> Vec<Obs> {
+        // only the five basic consumers (cheap to compile); the explorer never asks a light subject for more
+        let WL(it, f) = *self;
         match c {
+            Consumer::Fold => it.fold(Vec::new(), |mut v, x| {
+                v.push(f(x));
+                v
+            }),
+            Consumer::Rfold => it.rfold(Vec::new(), |mut v, x| {
+                v.push(f(x));
+                v
+            }),
+            Consumer::Last => it.last().map(f).into_iter().collect(),
+            Consumer::Count => vec![Obs::D(it.count() as i128)],
+            Consumer::RevCollect => it.rev().map(f).collect(),
+            _ => it.map(f).collect(),
+        }
+    }
+}
+
+pub const LIGHT_CONSUMERS: [Consumer; 6] = [Consumer::Fold, Consumer::Rfold, Consumer::Last, Consumer::Count, Consumer::RevCollect, Consumer::Collect];
+
+/// `names()`: items are `&'static str`, so the `Ord`-based consumers apply as well.
+pub struct WS<I>(pub I);
+
+impl<I> DynIter for WS<I>
+where
+    I: Iterator<Item = &'static str> + DoubleEndedIterator + ExactSizeIterator + FusedIterator,
+{
+    fn next(&mut self) -> Option<Obs> {
+        self.0.next().map(Obs::S)
+    }
+    fn next_back(&mut self) -> Option<Obs> {
+        self.0.next_back().map(Obs::S)
+    }
+    fn nth(&mut self, n: usize) -> Option<Obs> {
+        self.0.nth(n).map(Obs::S)
+    }
+    fn nth_back(&mut self, n: usize) -> Option<Obs> {
+        self.0.nth_back(n).map(Obs::S)
+    }
+    fn len(&self) -> usize {
+        ExactSizeIterator::len(&self.0)
+    }
+    fn size_hint(&self) -> (usize, Option<usize>) {
+        self.0.size_hint()
+    }
+    fn consume(self: Box<Self>, c: Consumer) -> Vec<Obs> {
+        consume_generic(self.0, Obs::S as fn(&'static str) -> Obs, c)
+    }
+    fn consume_ord(self: Box<Self>, c: OrdConsumer) -> Option<Vec<Obs>> {
+        Some(consume_ord(self.0, c))
+    }
+}
+
+/// Every consumer, written once: run on the generated iterator (through `W` / `WS`) and, for the
+/// reference, on `Vec`'s own iterator over the expected list.
+pub fn consume_generic<T, I, F>(it: I, f: F, c: Consumer) -> Vec<Obs>
+where
+    I: Iterator<Item = T> + DoubleEndedIterator + ExactSizeIterator + FusedIterator,
+    F: Fn(T) -> Obs + Copy,
+{
+    match c {
             Consumer::Fold => it.fold(Vec::new(), |mut v, x| {
                 v.push(f(x));
                 v
@@ -205,8 +402,222 @@ where
                 }
                 v
             }
+            Consumer::Reduce => {
+                // keeps the left or the right operand alternately: observes the pairing order of reduce
+                let mut k = 0usize;
+                it.reduce(|a, b| {
+                    k += 1;
+                    if k % 3 == 0 {
+                        a
+                    } else {
+                        b
+                    }
+                })
+                .map(f)
+                .into_iter()
+                .collect()
+            }
+            Consumer::AllThenRest => {
+                let mut it = it;
+                let mut n = 0usize;
+                let r = it.all(|_| {
+                    n += 1;
+                    n < 2
+                });
+                let mut v = vec![Obs::D(r as i128), Obs::D(n as i128)];
+                v.extend(it.map(f));
+                v
+            }
+            Consumer::AnyThenRest => {
+                let mut it = it;
+                let mut n = 0usize;
+                let r = it.any(|_| {
+                    n += 1;
+                    n == 2
+                });
+                let mut v = vec![Obs::D(r as i128), Obs::D(n as i128)];
+                v.extend(it.rev().map(f));
+                v
+            }
+            Consumer::FindMapThenRest => {
+                let mut it = it;
+                let mut n = 0usize;
+                let r = it.find_map(|x| {
+                    n += 1;
+                    if n == 2 {
+                        Some(f(x))
+                    } else {
+                        None
+                    }
+                });
+                let mut v: Vec<Obs> = r.into_iter().collect();
+                v.push(Obs::D(-7));
+                v.extend(it.map(f));
+                v
+            }
+            Consumer::RfindThenRest => {
+                let mut it = it;
+                let mut n = 0usize;
+                let r = it.rfind(|_| {
+                    n += 1;
+                    n == 2
+                });
+                let mut v: Vec<Obs> = r.map(f).into_iter().collect();
+                v.push(Obs::D(-7));
+                v.extend(it.map(f));
+                v
+            }
+            Consumer::MaxBy => {
+                // every element compares Equal: max_by must return the LAST one, and see every element once
+                let mut n = 0usize;
+                let r = it.max_by(|_, _| {
+                    n += 1;
+                    ::core::cmp::Ordering::Equal
+                });
+                let mut v: Vec<Obs> = r.map(f).into_iter().collect();
+                v.push(Obs::D(n as i128));
+                v
+            }
+            Consumer::MinBy => {
+                // every element compares Equal: min_by must return the FIRST one
+                let mut n = 0usize;
+                let r = it.min_by(|_, _| {
+                    n += 1;
+                    ::core::cmp::Ordering::Equal
+                });
+                let mut v: Vec<Obs> = r.map(f).into_iter().collect();
+                v.push(Obs::D(n as i128));
+                v
+            }
+            Consumer::MinByKey => {
+                let mut i = 0usize;
+                it.min_by_key(|_| {
+                    i += 1;
+                    (i + 1) % 3
+                })
+                .map(f)
+                .into_iter()
+                .collect()
+            }
+            Consumer::Partition => {
+                let mut i = 0usize;
+                let (a, b): (Vec<T>, Vec<T>) = it.partition(|_| {
+                    i += 1;
+                    i % 2 == 0
+                });
+                let mut v: Vec<Obs> = a.into_iter().map(f).collect();
+                v.push(Obs::D(-7));
+                v.extend(b.into_iter().map(f));
+                v
+            }
+            Consumer::IsSortedByKey => {
+                let mut i = 0usize;
+                let r = it.is_sorted_by_key(|_| {
+                    i += 1;
+                    i
+                });
+                vec![Obs::D(r as i128), Obs::D(i as i128)]
+            }
+            Consumer::ByRefTake1ThenLast => {
+                let mut it = it;
+                let mut v: Vec<Obs> = it.by_ref().take(1).map(f).collect();
+                v.push(Obs::D(ExactSizeIterator::len(&it) as i128));
+                v.extend(it.last().map(f));
+                v
+            }
+            Consumer::ChainOnceNthBack => {
+                // Chain forwards nth_back / nth / fold to the generated iterator after its own tail is used up
+                let mut ch = it.chain(::core::option::Option::<T>::None);
+                let mut v: Vec<Obs> = ch.nth_back(1).map(f).into_iter().collect();
+                v.push(Obs::D(-7));
+                v.extend(ch.nth(1).map(f));
+                v.push(Obs::D(-7));
+                v.extend(ch.map(f));
+                v
+            }
+            Consumer::FuseDrainThenPoll => {
+                // the iterator claims FusedIterator, so Fuse forwards to it even after it returned None
+                let mut fu = it.fuse();
+                let mut n = 0i128;
+                while fu.next().is_some() {
+                    n += 1;
+                }
+                let mut v = vec![Obs::D(n)];
+                for _ in 0..3 {
+                    v.push(Obs::D(fu.next().is_some() as i128));
+                    v.push(Obs::D(fu.next_back().is_some() as i128));
+                    v.push(Obs::D(fu.nth(1).is_some() as i128));
+                    v.push(Obs::D(fu.nth_back(0).is_some() as i128));
+                    v.push(Obs::D(fu.size_hint().0 as i128));
+                }
+                v
+            }
+            Consumer::PeekableCollect => {
+                let mut pk = it.peekable();
+                let mut v = vec![Obs::D(pk.peek().is_some() as i128), Obs::D(ExactSizeIterator::len(&pk) as i128)];
+                v.extend(pk.next_back().map(f));
+                v.push(Obs::D(-7));
+                v.extend(pk.map(f));
+                v
+            }
+            Consumer::SkipWhileCollect => {
+                let mut n = 0usize;
+                it.skip_while(|_| {
+                    n += 1;
+                    n < 3
+                })
+                .map(f)
+                .collect()
+            }
+            Consumer::CountAfterNextBack => {
+                let mut it = it;
+                let mut v: Vec<Obs> = it.next_back().map(f).into_iter().collect();
+                v.push(Obs::D(it.count() as i128));
+                v
+            }
+            Consumer::LastAfterNthBack => {
+                let mut it = it;
+                let mut v: Vec<Obs> = it.nth_back(1).map(f).into_iter().collect();
+                v.push(Obs::D(-7));
+                v.extend(it.last().map(f));
+                v
+            }
+            Consumer::RevFoldAfterNext => {
+                let mut it = it;
+                let mut v: Vec<Obs> = it.next().map(f).into_iter().collect();
+                v.push(Obs::D(-7));
+                it.rev().fold(v, |mut v, x| {
+                    v.push(f(x));
+                    v
+                })
+            }
+            Consumer::TryForEachThenLen => {
+                let mut it = it;
+                let mut n = 0usize;
+                let r = it.try_for_each(|_| {
+                    n += 1;
+                    if n == 3 {
+                        Err(())
+                    } else {
+                        Ok(())
+                    }
+                });
+                vec![Obs::D(r.is_ok() as i128), Obs::D(ExactSizeIterator::len(&it) as i128)]
+            }
+            Consumer::RevRfind => {
+                // Rev::rfind is the inner iterator's find
+                let mut r = it.rev();
+                let mut n = 0usize;
+                let x = r.rfind(|_| {
+                    n += 1;
+                    n == 2
+                });
+                let mut v: Vec<Obs> = x.map(f).into_iter().collect();
+                v.push(Obs::D(-7));
+                v.extend(r.map(f));
+                v
+            }
         }
-    }
 }
 
 #[derive(Clone, Copy, Debug, PartialEq, Eq, Hash)]
@@ -365,7 +776,19 @@ fn model_consume(exp: &[Obs], c: Consumer) -> Vec<Obs> {
             }
             v
         }
+        _ => consume_generic(exp.to_vec().into_iter(), |x: Obs| x, c),
     }
+}
+
+fn model_consume_ord(exp: &[Obs], c: OrdConsumer) -> Vec<Obs> {
+    let v: Vec<&'static str> = exp
+        .iter()
+        .map(|o| match o {
+            Obs::S(s) => *s,
+            Obs::D(_) => unreachable!("Ord consumers run on names only"),
+        })
+        .collect();
+    consume_ord(v.into_iter(), c)
 }
 
 fn show_obs(o: &Option<Obs>) -> String {
@@ -498,6 +921,7 @@ fn check_node(
         c.st.nontrivial += 1;
     }
     // observations at every node
+    let consumers = consumers && it.full();
     let l = guard(|| it.len());
     let sh = guard(|| it.size_hint());
     c.st.transitions += 2;
@@ -511,8 +935,9 @@ fn check_node(
         return false;
     }
     drop(it);
-    if consumers {
-        for cons in CONSUMERS {
+    if !c.s.light {
+        let list: &[Consumer] = if consumers { &CONSUMERS } else { &LIGHT_CONSUMERS };
+        for &cons in list {
             let (it, m) = match replay(c, false) {
                 Ok(x) => x,
                 Err(()) => {
@@ -533,6 +958,36 @@ fn check_node(
                 }
                 Err(p) => {
                     c.violation(kind, &format!("{what}: {}; {cons:?}", show_hist(hist)), &show_vec(&want), &format!("PANIC: {p}"));
+                    return false;
+                }
+            }
+        }
+        for cons in ORD_CONSUMERS {
+            if !consumers {
+                break;
+            }
+            let (it, m) = match replay(c, false) {
+                Ok(x) => x,
+                Err(()) => {
+                    c.machinery.push(format!("{}: replay of {} diverged", c.s.id, show_hist(hist)));
+                    return false;
+                }
+            };
+            let got = guard(move || it.consume_ord(cons));
+            if let Ok(None) = got {
+                break; // items are not Ord
+            }
+            let want = model_consume_ord(&exp[m.lo..m.hi], cons);
+            c.st.transitions += 1;
+            c.st.h(kind, &(cons, got.clone().ok()));
+            match got {
+                Ok(Some(g)) if g == want => {}
+                Ok(g) => {
+                    c.violation(kind, &format!("{what}: {}; Ord::{cons:?}", show_hist(hist)), &show_vec(&want), &show_vec(&g.unwrap_or_default()));
+                    return false;
+                }
+                Err(p) => {
+                    c.violation(kind, &format!("{what}: {}; Ord::{cons:?}", show_hist(hist)), &show_vec(&want), &format!("PANIC: {p}"));
                     return false;
                 }
             }
